@@ -336,6 +336,47 @@ package core
 //@   ensures[C10,C03,@undefined-macro] imp(old(!(paste.namedParameters != nil && has(paste.namedParameters, "Name") && has(core.macro, paste.namedParameters["Name"]))), result != nil)
 //@   ensures[C10,C01,@paste-depth-bounded] core.pasteDepth == old(core.pasteDepth)
 
+// The phases of compileCore share the rule registry: the ENUMs of pasted macro bodies are registered while PASTE is
+// expanded, the ENUMs of the root level after that - so a name declared in both is reported at the root-level ENUM, on the
+// directive itself (an error raised during the expansion is relocated onto the PASTE, which is not the offending
+// directive: C03). Only this one dependence between phases is stated; their bodies are assumed (trusted) here.
+//@ ghost field JApiCore.gExpanded bool
+//@ func (*JApiCore).processPaste(core)
+//@   attr trusted
+//@   requires core != nil
+//@   modifies anything
+//@   ghost core.gExpanded := true
+//@ func (*JApiCore).collectRules(core)
+//@   attr trusted
+//@   requires core != nil
+//@   requires[C03,@rules-after-expansion] core.gExpanded
+//@   modifies anything
+//@ func (*JApiCore).checkMacroForRecursion(core)
+//@   attr trusted
+//@   requires core != nil
+//@   modifies nothing
+//@ func (*JApiCore).collectTags(core)
+//@   attr trusted
+//@   requires core != nil
+//@   modifies anything
+//@ func (*JApiCore).collectUserTypes(core)
+//@   attr trusted
+//@   requires core != nil
+//@   modifies anything
+//@ func (*JApiCore).collectPaths(core, dd)
+//@   attr trusted
+//@   requires core != nil
+//@   modifies anything
+//@ func (*JApiCore).addMissedUndefindedPathVariables(core, dd)
+//@   attr trusted
+//@   requires core != nil
+//@   modifies anything
+//@ func (*JApiCore).compileCore(core)
+//@   property C03
+//@   attr assumesafe
+//@   requires core != nil
+//@   modifies anything
+
 // The tree walk of the expansion (processPasteDirectiveList <-> processDirective) and the rule collection are not under
 // contract yet: their contracts are assumed where processPasteDirective calls them.
 // The scanned tree (core.directives) is read by the scanning phase, by the macro collection, by the expansion (which copies it
